@@ -15,7 +15,9 @@ pub fn check(cx: &Cx, rep: &mut Report) {
         // a stream-attached actor ends with its stream, whenever that is: no drain guarantee is stated for that
         let clean = !af.failed() && decl.timeout.is_none() && af.stream_end.is_none();
         let subs: Vec<&crate::index::OpRec> = ix.ops.iter().filter(|o| o.tag == af.tag && o.is_submit() && o.executed()).collect();
-        if clean {
+        // on L2 "never handled" is only final once the actor has completed stopped()
+        let final_ok = !cx.mt || matches!(af.t_final(), Some((_, Some(_))));
+        if clean && final_ok {
             let cause = af.first_term_cause();
             for m in &subs {
                 let Some(r) = m.e else { continue };
@@ -83,7 +85,7 @@ pub fn check(cx: &Cx, rep: &mut Report) {
                         // halt whose stop() failed: the actor is already gone/terminating; the error is the stop's
                         continue;
                     }
-                    if af.task_end.is_none() {
+                    if af.task_end.is_none() && !cx.mt {
                         rep.fail(P, "R4", format!("resolved_while_running={:?}", o.op), format!("{:?} c{}#{} resolved at #{r} although the actor task has not ended", o.op, o.c, o.i), vec![o.b, r]);
                         continue;
                     }
